@@ -583,14 +583,15 @@ impl Recorder {
             }
             json!({"t": chars(c), "emoji": self.or.has_table_emoji(c),
                    "dictword": self.or.dict_words.contains(&cc),
-                   "prefix": !cw.is_empty() && cc.starts_with(&cw),
+                   "prefix": !cw.is_empty() && cc.starts_with(&cw), "ascii": c.is_ascii(),
                    "dist": levenshtein(&word, inner) * 10,
                    "pre_eq": pre.as_deref() == Some(c.as_str()),
                    "pre_bijoy": pre.is_some() && pre == bijoy(c),
                    "pre_bn": pre.as_deref().map(has_bengali).unwrap_or(true),
                    "readable": pre.is_some()})
         }).collect();
-        let emoticon = self.or.emoticons.get(keys_typed).map(|e| e.to_string()).unwrap_or_default();
+        // (after a correction the raw key buffer of the engine is not determined by the statements: no emoticon is demanded)
+        let emoticon = if used_bs { String::new() } else { self.or.emoticons.get(keys_typed).map(|e| e.to_string()).unwrap_or_default() };
         let names: Vec<Value> = self.or.bn_emoji_names.get(word.as_str()).map(|l| l.iter().map(|e| chars(e)).collect()).unwrap_or_default();
         json!({"ev": "flist", "keys": chars(keys_typed), "comp": chars(&comp), "english": cfg.english && !cfg.ansi, "ansi": cfg.ansi,
                "smart": cfg.smart, "kar": cfg.kar, "bs": used_bs, "kind": o.kind, "sel": o.sel, "cands": cands,
@@ -612,6 +613,62 @@ impl Recorder {
             }
         }
         Some((last, raw))
+    }
+
+    /// The text `seq` has just been typed into `c`; apply one of three corrections and return the lists shown on the way
+    /// (with the raw key characters that survive - informative only, the raw-key clause is waived after a backspace).
+    fn edited_lists(&self, c: &mut Ctx, inv: &LayoutInv, seq: &[String], how: usize) -> Vec<(Obs, String)> {
+        let mut out = Vec::new();
+        let raw_of = |vals: &[String]| -> String {
+            vals.iter().filter_map(|v| inv.key_for_value(v).and_then(|(code, _)| self.keys.char_for_code(code))).collect()
+        };
+        match how {
+            0 => {
+                // another key (a consonant the word does not end in), then a backspace
+                let extra = if seq.last().map(|s| s.as_str()) == Some("\u{0995}") { "\u{09A8}" } else { "\u{0995}" };
+                if let Some((code, m)) = inv.key_for_value(extra) {
+                    let o = c.key(code, m, 0);
+                    if o.kind == "panic" { out.push((o, String::new())); return out; }
+                    let o = c.backspace(false);
+                    out.push((o, raw_of(seq)));
+                }
+            }
+            1 => {
+                // a backspace, then the last value again (values of one code point only)
+                if let Some(last) = seq.last() {
+                    if last.chars().count() == 1 && seq.len() >= 2 {
+                        let o = c.backspace(false);
+                        let stop = o.kind == "panic";
+                        out.push((o, raw_of(&seq[..seq.len() - 1])));
+                        if stop { return out; }
+                        if let Some((code, m)) = inv.key_for_value(last) {
+                            let o = c.key(code, m, 0);
+                            out.push((o, raw_of(seq)));
+                        }
+                    }
+                }
+            }
+            _ => {
+                // backspaces down to the first code point (values of one code point only), then the rest again
+                if seq.len() >= 3 && seq.iter().all(|v| v.chars().count() == 1) {
+                    for k in (1..seq.len()).rev() {
+                        let o = c.backspace(false);
+                        let stop = o.kind == "panic";
+                        out.push((o, raw_of(&seq[..k])));
+                        if stop { return out; }
+                    }
+                    for k in 1..seq.len() {
+                        if let Some((code, m)) = inv.key_for_value(&seq[k]) {
+                            let o = c.key(code, m, 0);
+                            let stop = o.kind == "panic";
+                            out.push((o, raw_of(&seq[..=k])));
+                            if stop { return out; }
+                        }
+                    }
+                }
+            }
+        }
+        out
     }
 
     /// (number of (typed word, hit) pairs where a longer hit precedes the typed word's own entry in its table,
@@ -758,6 +815,24 @@ impl Recorder {
                     }
                     let e = self.flist_event(&raw, &cfgs[ci], &o, false);
                     self.emit(e);
+                    // edited histories (every 3rd item): the list shown after a correction is still a list of C15 - the first
+                    // candidate is the composed text, the others complete it - only the raw-key-text clause is waived once a
+                    // backspace was used.  (a) another key and a backspace; (b) a backspace and the last value again;
+                    // (c) backspaces down to the first code point, then the rest of the text again.
+                    if n % 3 == 0 {
+                        let edits = self.edited_lists(&mut ctxs[ci], &inv, &seq, (n / 3) % 3);
+                        for (o2, raw2) in edits {
+                            if o2.kind == "panic" {
+                                self.emit(json!({"ev": "panic", "typed": chars(&seq.concat()), "what": o2.panic.clone().unwrap_or_default()}));
+                                ctxs[ci] = Ctx::new(&cfgs[ci], &self.home).unwrap();
+                                break;
+                            }
+                            if o2.kind == "full" {
+                                let e2 = self.flist_event(&raw2, &cfgs[ci], &o2, true);
+                                self.emit(e2);
+                            }
+                        }
+                    }
                     ctxs[ci].finish();
                 }
                 None => {
@@ -918,7 +993,7 @@ impl Recorder {
         (cfg, j)
     }
 
-    fn ret_fields(o: &Obs) -> Value {
+    pub(crate) fn ret_fields(o: &Obs) -> Value {
         let shown = match o.kind.as_str() {
             "full" => o.aux.clone(),
             "single" => o.cands.get(0).cloned().unwrap_or_default(),
@@ -1139,6 +1214,7 @@ impl Recorder {
         self.long_runs(shard, shards);
         self.key_pairs(shard, shards);
         self.option_flips(shard, shards);
+        self.sel_edges(shard, shards);
         for _ in 0..rounds {
             clean_home(&self.home);
             let (mut cfg, j) = self.sess_cfg();
